@@ -2070,3 +2070,21 @@ impl DoubleEndedIterator for BtreePositionalIterator {
         result
     }
 }
+
+/// Verification hooks (feature `verif`, add-only): the pure rebalancing helpers, callable standalone.
+#[cfg(feature = "verif")]
+impl<Acc> Btree<Acc>
+where
+    Acc: TreeWriter,
+{
+    pub(crate) fn verif_split_cells(cells: Vec<OwnedCell>) -> (Vec<OwnedCell>, Vec<OwnedCell>) {
+        Self::split_cells(cells)
+    }
+
+    pub(crate) fn verif_best_distribution(
+        cells: &VecDeque<OwnedCell>,
+        page_size: usize,
+    ) -> (Vec<usize>, Vec<usize>) {
+        Self::compute_best_cell_distribution(cells, page_size)
+    }
+}
